@@ -14,6 +14,14 @@ SPANS_MS = [
 ]
 
 
+class StampLike(datetime):
+    """An instance of a datetime subclass (as pandas.Timestamp is): still a naive datetime of ms resolution."""
+
+
+def as_sub(t):
+    return StampLike(t.year, t.month, t.day, t.hour, t.minute, t.second, t.microsecond)
+
+
 def ms(n):
     return timedelta(milliseconds=n)
 
